@@ -71,6 +71,7 @@ func (f *Files) init() {
 	pathCount := make(map[string]int)
 	if f.AllowStdin && len(f.Paths) == 0 {
 		f.inputs = append(f.inputs, input{"-", "-", true, false})
+		pathCount["-"]++
 	}
 	for _, path := range f.Paths {
 		// Parse the label.
